@@ -82,6 +82,9 @@ def enumerate_cases(tier):
                 yield dict(base, blocks=[[blk, mal]], keys=keys, accept=accept, secflags=secflags)
     for kind, mal, keys, accept in itertools.product(LAYERED, ('none', 'alter-target-0', 'wrong-kid'), KEYSTORES, (False, True)):
         yield dict(base, blocks=[[kind, mal]], keys=keys, accept=accept)
+    # a BIB that travels encrypted (BCB over payload and BIB), not accepted: many different ciphertexts of the BIB
+    for seed in range(60 if tier == 'quick' else 400):
+        yield dict(base, seed=seed, blocks=[['bib+bcb-rfc', 'none']], keys='right', accept=False)
     pairs = [('bib-ext', 'bib-payload'), ('bib-ext', 'bcb-payload'), ('bib-payload', 'bib-ext'), ('bcb-payload', 'bib-ext')]
     for (first, second), mal, accept, bad_first in itertools.product(pairs, MALFORMATIONS[1:], (False, True), (False, True)):
         blocks = [[first, mal if bad_first else 'none'], [second, 'none' if bad_first else mal]]
@@ -208,7 +211,10 @@ def build(case):
             bundle = bu.ref_add_bib(bundle, [1], 'k-mac-1', 5, {0: 1, -1: 1})
             bib_num = [b for b in bundle['blocks'] if b['type'] == 11][-1]['num']
             bcb_targets = [1] if blk_kind == 'bib+bcb' else [1, bib_num]
-            bundle = bu.ref_add_bcb(bundle, bcb_targets, 'k-enc-1', 3, {0: 1, -1: 1}, [b'\x61' * 12, b'\x62' * 12][:len(bcb_targets)])
+            # (the IVs vary with the case: what the ciphertext of the BIB looks like must not matter)
+            from vlib import strat9174 as s9
+            layered_ivs = [s9.content(12, case['seed'] + 7), s9.content(12, case['seed'] + 8)]
+            bundle = bu.ref_add_bcb(bundle, bcb_targets, 'k-enc-1', 3, {0: 1, -1: 1}, layered_ivs[:len(bcb_targets)])
             bundle = malform(bundle, 12, mal)      # (the malformation, if any, hits the BCB / the ciphertext of the payload)
             plan.append((11, 1, 'none'))
             plan.append((12, 1, mal))
